@@ -106,6 +106,14 @@ func funcDecl(c *Check, pkgRel, recv, name string) (*ast.FuncDecl, *types.Info) 
 			}
 		}
 	}
+	// the same function under a new name (see resolveRenames)
+	for _, q := range []string{pkgRel + ".(*" + recv + ")." + name, pkgRel + ".(" + recv + ")." + name, pkgRel + "." + name} {
+		if fn := c.P.Func(q); fn != nil {
+			if fd, ok := fn.Syntax().(*ast.FuncDecl); ok {
+				return fd, pk.TypesInfo
+			}
+		}
+	}
 	return nil, nil
 }
 
@@ -303,6 +311,11 @@ func readerTable(c *Check, pkgRel, recv, name string) (tbl []fieldWT, hasDefault
 							case *ast.Ident:
 								if f.Name == "skipTag" {
 									hasDefaultSkip = true
+								} else if obj, isF := info.Uses[f].(*types.Func); isF {
+									// the same function under a new name
+									if sf := c.P.SSA.FuncValue(obj); sf != nil && QualName(sf) == "snapshot.skipTag" {
+										hasDefaultSkip = true
+									}
 								}
 							case *ast.SelectorExpr:
 								if f.Sel.Name == "Skip" {
